@@ -120,24 +120,34 @@ class SBool:
         return mkbool(z3.Not(self.t))
 
     def __and__(self, o):
+        if hasattr(o, '__array_priority__'):
+            return NotImplemented
         return e_and(self, o)
 
     __rand__ = __and__
 
     def __or__(self, o):
+        if hasattr(o, '__array_priority__'):
+            return NotImplemented
         return e_or(self, o)
 
     __ror__ = __or__
 
     def __xor__(self, o):
+        if hasattr(o, '__array_priority__'):
+            return NotImplemented
         return mkbool(z3.Xor(self.t, bt(o)))
 
     __rxor__ = __xor__
 
     def __eq__(self, o):
+        if hasattr(o, '__array_priority__'):
+            return NotImplemented
         return e_eq(self, o)
 
     def __ne__(self, o):
+        if hasattr(o, '__array_priority__'):
+            return NotImplemented
         return e_ne(self, o)
 
     def __hash__(self):
@@ -147,17 +157,25 @@ class SBool:
         return SInt(z3.If(self.t, IV(1), IV(0)))
 
     def __add__(self, o):
+        if hasattr(o, '__array_priority__'):
+            return NotImplemented
         return e_add(self, o)
 
     __radd__ = __add__
 
     def __sub__(self, o):
+        if hasattr(o, '__array_priority__'):
+            return NotImplemented
         return e_sub(self, o)
 
     def __rsub__(self, o):
+        if hasattr(o, '__array_priority__'):
+            return NotImplemented
         return e_sub(o, self)
 
     def __mul__(self, o):
+        if hasattr(o, '__array_priority__'):
+            return NotImplemented
         return e_mul(self, o)
 
     __rmul__ = __mul__
@@ -189,6 +207,10 @@ def it(x):
     if isinstance(x, z3.ArithRef) and x.is_int():
         return x
     if isinstance(x, SReal):
+        if x.i is True:
+            return z3.ToInt(x.t)        # integer-valued by construction
+        if x.i is not None:
+            return x.i          # integer-valued real: the exact Int twin
         # truncation toward zero (C cast); NaN/inf -> unspecified, callers guard
         return z3.If(x.t >= 0, z3.ToInt(x.t), -z3.ToInt(-x.t))
     if isinstance(x, Fraction):
@@ -213,36 +235,58 @@ class SInt:
 
     # arithmetic
     def __add__(self, o):
+        if hasattr(o, '__array_priority__'):
+            return NotImplemented
         return e_add(self, o)
 
     def __radd__(self, o):
+        if hasattr(o, '__array_priority__'):
+            return NotImplemented
         return e_add(o, self)
 
     def __sub__(self, o):
+        if hasattr(o, '__array_priority__'):
+            return NotImplemented
         return e_sub(self, o)
 
     def __rsub__(self, o):
+        if hasattr(o, '__array_priority__'):
+            return NotImplemented
         return e_sub(o, self)
 
     def __mul__(self, o):
+        if hasattr(o, '__array_priority__'):
+            return NotImplemented
         return e_mul(self, o)
 
     def __rmul__(self, o):
+        if hasattr(o, '__array_priority__'):
+            return NotImplemented
         return e_mul(o, self)
 
     def __truediv__(self, o):
+        if hasattr(o, '__array_priority__'):
+            return NotImplemented
         return e_div(self, o)
 
     def __rtruediv__(self, o):
+        if hasattr(o, '__array_priority__'):
+            return NotImplemented
         return e_div(o, self)
 
     def __floordiv__(self, o):
+        if hasattr(o, '__array_priority__'):
+            return NotImplemented
         return e_floordiv(self, o)
 
     def __rfloordiv__(self, o):
+        if hasattr(o, '__array_priority__'):
+            return NotImplemented
         return e_floordiv(o, self)
 
     def __mod__(self, o):
+        if hasattr(o, '__array_priority__'):
+            return NotImplemented
         return e_mod(self, o)
 
     def __rmod__(self, o):
@@ -260,25 +304,39 @@ class SInt:
         return mkint(z3.If(self.t >= 0, self.t, -self.t))
 
     def __pow__(self, o):
+        if hasattr(o, '__array_priority__'):
+            return NotImplemented
         return e_pow(self, o)
 
     # comparisons
     def __eq__(self, o):
+        if hasattr(o, '__array_priority__'):
+            return NotImplemented
         return e_eq(self, o)
 
     def __ne__(self, o):
+        if hasattr(o, '__array_priority__'):
+            return NotImplemented
         return e_ne(self, o)
 
     def __lt__(self, o):
+        if hasattr(o, '__array_priority__'):
+            return NotImplemented
         return e_lt(self, o)
 
     def __le__(self, o):
+        if hasattr(o, '__array_priority__'):
+            return NotImplemented
         return e_le(self, o)
 
     def __gt__(self, o):
+        if hasattr(o, '__array_priority__'):
+            return NotImplemented
         return e_lt(o, self)
 
     def __ge__(self, o):
+        if hasattr(o, '__array_priority__'):
+            return NotImplemented
         return e_le(o, self)
 
     def __bool__(self):
@@ -362,7 +420,40 @@ def rparts(x):
     raise HarnessError("rparts: %r" % (type(x),))
 
 
-def mkreal(t, nan=False, inf=False):
+def ipart(x):
+    """Int term equal to x when x is known to be integer-valued, else None."""
+    if isinstance(x, SReal):
+        return None if x.i is True else x.i
+    if isinstance(x, SInt):
+        return x.t
+    if isinstance(x, SBool):
+        return z3.If(x.t, IV(1), IV(0))
+    if isinstance(x, bool):
+        return IV(int(x))
+    if isinstance(x, int):
+        return IV(x)
+    if isinstance(x, Fraction) and x.denominator == 1:
+        return IV(int(x))
+    return None
+
+
+def intvalued(x):
+    if isinstance(x, SReal):
+        return x.i is not None
+    return ipart(x) is not None
+
+
+def _comb_i(a, b, op):
+    """Integer twin / integer-valued marker of op(a, b) for op in + - *."""
+    ia, ib = ipart(a), ipart(b)
+    if ia is not None and ib is not None:
+        return op(ia, ib)
+    if intvalued(a) and intvalued(b):
+        return True
+    return None
+
+
+def mkreal(t, nan=False, inf=False, i=None):
     """Concrete Fraction / float when decided, else SReal."""
     if nan is not False and nan is not True:
         nan = z3.simplify(nan)
@@ -383,39 +474,56 @@ def mkreal(t, nan=False, inf=False):
         return Fraction(t.numerator_as_long(), t.denominator_as_long())
     if nan is False and inf is True and z3.is_rational_value(t):
         return float("inf") if t.numerator_as_long() > 0 else float("-inf")
-    return SReal(t, nan, inf)
+    return SReal(t, nan, inf, i if inf is False else None)
 
 
 class SReal:
-    __slots__ = ("t", "nan", "inf")
+    __slots__ = ("t", "nan", "inf", "i")
 
-    def __init__(self, t, nan=False, inf=False):
+    def __init__(self, t, nan=False, inf=False, i=None):
         self.t = t
         self.nan = nan
         self.inf = inf
+        self.i = i          # optional z3 Int term with the same value (integer-valued reals)
 
     def __add__(self, o):
+        if hasattr(o, '__array_priority__'):
+            return NotImplemented
         return e_add(self, o)
 
     def __radd__(self, o):
+        if hasattr(o, '__array_priority__'):
+            return NotImplemented
         return e_add(o, self)
 
     def __sub__(self, o):
+        if hasattr(o, '__array_priority__'):
+            return NotImplemented
         return e_sub(self, o)
 
     def __rsub__(self, o):
+        if hasattr(o, '__array_priority__'):
+            return NotImplemented
         return e_sub(o, self)
 
     def __mul__(self, o):
+        if hasattr(o, '__array_priority__'):
+            return NotImplemented
         return e_mul(self, o)
 
     def __rmul__(self, o):
+        if hasattr(o, '__array_priority__'):
+            return NotImplemented
         return e_mul(o, self)
 
     def __truediv__(self, o):
+        if hasattr(o, '__array_priority__'):
+            return NotImplemented
         return e_div(self, o)
 
     def __rtruediv__(self, o):
+        if hasattr(o, '__array_priority__'):
+            return NotImplemented
         return e_div(o, self)
 
     def __neg__(self):
@@ -428,24 +536,38 @@ class SReal:
         return mkreal(z3.If(self.t >= 0, self.t, -self.t), self.nan, self.inf)
 
     def __pow__(self, o):
+        if hasattr(o, '__array_priority__'):
+            return NotImplemented
         return e_pow(self, o)
 
     def __eq__(self, o):
+        if hasattr(o, '__array_priority__'):
+            return NotImplemented
         return e_eq(self, o)
 
     def __ne__(self, o):
+        if hasattr(o, '__array_priority__'):
+            return NotImplemented
         return e_ne(self, o)
 
     def __lt__(self, o):
+        if hasattr(o, '__array_priority__'):
+            return NotImplemented
         return e_lt(self, o)
 
     def __le__(self, o):
+        if hasattr(o, '__array_priority__'):
+            return NotImplemented
         return e_le(self, o)
 
     def __gt__(self, o):
+        if hasattr(o, '__array_priority__'):
+            return NotImplemented
         return e_lt(o, self)
 
     def __ge__(self, o):
+        if hasattr(o, '__array_priority__'):
+            return NotImplemented
         return e_le(o, self)
 
     def __bool__(self):
@@ -500,7 +622,7 @@ def _radd(a, b):
     at, an, ai = rparts(a)
     bt_, bn, bi = rparts(b)
     if ai is False and bi is False:
-        return mkreal(at + bt_, f_or(an, bn), False)
+        return mkreal(at + bt_, f_or(an, bn), False, _comb_i(a, b, operator.add))
     # inf handling: inf + (-inf) = nan
     both = f_and(ai, bi)
     opp = f_and(both, (at * bt_) < 0) if both is not False else False
@@ -512,18 +634,45 @@ def _radd(a, b):
 
 def _rneg(b):
     t, n, i = rparts(b)
-    return SReal(-t, n, i)
+    ib = ipart(b)
+    return SReal(-t, n, i, (-ib if ib is not None else (True if intvalued(b) else None)) if i is False else None)
 
 
 def _rsub(a, b):
     return _radd(a, _rneg(b))
 
 
+def _const_ite(t, depth=4):
+    """True when t is an if-then-else tree (depth-bounded) whose leaves are all numerals."""
+    if z3.is_rational_value(t) or z3.is_int_value(t):
+        return True
+    if depth and z3.is_app_of(t, z3.Z3_OP_ITE):
+        return _const_ite(t.arg(1), depth - 1) and _const_ite(t.arg(2), depth - 1)
+    return False
+
+
+def _distribute(x, t):
+    """x * t with the product pushed to the numeral leaves of the ite tree t (keeps VCs linear)."""
+    if z3.is_app_of(t, z3.Z3_OP_ITE):
+        return z3.If(t.arg(0), _distribute(x, t.arg(1)), _distribute(x, t.arg(2)))
+    return x * t
+
+
+def _lin_mul(at, bt_):
+    if z3.is_rational_value(at) or z3.is_rational_value(bt_):
+        return at * bt_
+    if _const_ite(bt_):
+        return _distribute(at, bt_)
+    if _const_ite(at):
+        return _distribute(bt_, at)
+    return at * bt_
+
+
 def _rmul(a, b):
     at, an, ai = rparts(a)
     bt_, bn, bi = rparts(b)
     if ai is False and bi is False:
-        return mkreal(at * bt_, f_or(an, bn), False)
+        return mkreal(_lin_mul(at, bt_), f_or(an, bn), False, _comb_i(a, b, operator.mul))
     inf = f_or(ai, bi)
     zero_times_inf = f_or(f_and(ai, f_not(bi), bt_ == 0), f_and(bi, f_not(ai), at == 0))
     nan = f_or(an, bn, zero_times_inf)
@@ -789,7 +938,8 @@ def e_ite(c, a, b):
     if _is_realish(a) or _is_realish(b):
         at, an, ai = rparts(a)
         bt_, bn, bi = rparts(b)
-        return mkreal(z3.If(ct, at, bt_), f_ite(ct, an, bn), f_ite(ct, ai, bi))
+        return mkreal(z3.If(ct, at, bt_), f_ite(ct, an, bn), f_ite(ct, ai, bi),
+                      _comb_i(a, b, lambda x, y: z3.If(ct, x, y)))
     return mkint(z3.If(ct, it(a), it(b)))
 
 
